@@ -85,9 +85,6 @@ any of the arguments corresponding to %s is a null pointer.
 
 EXPORT int vfscanf_s(FILE *restrict stream, const char *restrict fmt,
                      va_list ap) {
-#if defined(HAVE_STRSTR)
-    char *p;
-#endif
     int ret;
 
     if (unlikely(stream == NULL)) {
@@ -104,27 +101,12 @@ EXPORT int vfscanf_s(FILE *restrict stream, const char *restrict fmt,
         return EOF;
     }
 
-#if defined(HAVE_STRSTR)
-    if (unlikely((p = strstr((char *)fmt, "%n")))) {
-        if ((p - fmt == 0) || *(p - 1) != '%') {
-            invoke_safe_str_constraint_handler("vfscanf_s: illegal %n", NULL,
-                                               EINVAL);
-            errno = EINVAL;
-            return EOF;
-        }
+    if (unlikely(safec_fmt_has_n(fmt))) {
+        invoke_safe_str_constraint_handler("vfscanf_s: illegal %n", NULL,
+                                           EINVAL);
+        errno = EINVAL;
+        return EOF;
     }
-#elif defined(HAVE_STRCHR)
-    if (unlikely((p = strchr(fmt, flen, 'n')))) {
-        /* at the beginning or if inside, not %%n */
-        if (((p - fmt >= 1) && *(p - 1) == '%') &&
-            ((p - fmt == 1) || *(p - 2) != '%')) {
-            invoke_safe_str_constraint_handler("vfscanf_s: illegal %n", NULL,
-                                               EINVAL);
-            errno = EINVAL;
-            return EOF;
-        }
-    }
-#endif
 
     errno = 0;
     ret = vfscanf(stream, fmt, ap);
